@@ -11,6 +11,25 @@ CHECKS = {
   text="Exhaustive enumeration of all operation sequences up to a length bound over boundary endpoints (incl. 2^32-2, 2^32-1, '*') plus seeded random long sequences and grammar/mutation generated texts; every prefix is checked for canonical form, membership on all interesting probes, Dynamic(), String/Parse round trip and terminating ascending Nums(). Held-on-what-was-enumerated; not a proof for longer sequences.",
   design_ref="DESIGN.md §3 C15",
   note="Trusts the ~60-line reference set model and the independent grammar recognizer in checks/c15; Nums() only executed for cardinality <= 3000."),
+
+ "C16": dict(
+  category="exploration",
+  technique="runtime oracle: real internal/utf7 encoder/decoder (one-shot and hand-driven streaming Transform with tiny buffers) compared with an independent RFC 3501 reference codec giving a three-valued verdict per input",
+  text="Exhaustive enumeration of encoder inputs over a 9-symbol alphabet and of decoder inputs over an 11-symbol base64/shift alphabet up to a length bound, random long strings, mutated encodings, and streamed runs for every source chunk 1..8 x destination size 1..16 on a sample. Decides round trip, RFC form, rejection of the named malformed forms, UTF-8 validity of outputs, panic freedom and chunking independence on everything enumerated.",
+  design_ref="DESIGN.md §3 C16",
+  note="Trusts internal/ref/utf7ref (independent codec written from the RFC) and the Transformer driver in checks/c16."),
+ "C20": dict(
+  category="exploration",
+  technique="runtime oracle: imapserver.MatchList vs two independent matchers (DP and anchored regexp) that must agree with each other",
+  text="Exhaustive over names and patterns up to a length bound on small alphabets x 8 references x 3 delimiters, plus random long names/patterns with multi-byte runes.",
+  design_ref="DESIGN.md §3 C20",
+  note="Reference-resolution rule taken from the repository's own TestMatchList rows; ASCII delimiters only."),
+ "C05": dict(
+  category="exploration",
+  technique="runtime trace monitor: recording stub Session behind a real imapserver connection driven in lock-step by a raw client; independent RFC 9051 state machine predicts permitted backend calls, response class, close and next state for every command; race detector on",
+  text="Coverage pass forcing every (state, command, backend outcome) triple for each of 84 configurations (transport x InsecureAuth x greeting x session kind x caps), then seeded random command histories. Every backend call is checked against the reference state at call time; credentials never reach the backend on plaintext without InsecureAuth; capability lists checked against state.",
+  design_ref="DESIGN.md §3 C05",
+  note="Trusts the reference state machine in checks/c05 and crypto/tls; Unselect / Expunge-in-CLOSE failures are not scripted."),
 }
 
 NOT_YET = "check not built yet in this round (planned in DESIGN.md §3; runtime monitoring applies)"
